@@ -217,6 +217,10 @@ def run(ctx):
         ok = ok and any(a == ('lit', 10) or a == ('cast', ('ctor', 'Types::Enumerated', ()), 'u64') for x in mid for a in x[2][1:])
         mcl = [x for x in absx.leaves(rc, lambda x: x[0] == 'call' and x[1].endswith('match_class'))]
         ok = ok and any(a == ('ctor', 'TagClass::Universal', ()) for x in mcl for a in x[2][1:])
+        # a path that answers a constant instead (a code the field cannot hold): acceptable when the constant is a refusal - none of the
+        # codes the helpers accept - and the path has looked at the decoded element (T1.result-code-exact decides when such a path is taken)
+        if not ok and rc[0] == 'lit' and isinstance(rc[1], int) and rc[1] not in (0, 5, 6, 10):
+            ok = any(sem.has(a, lambda x: x[0] == 'call' and x[1].endswith('::expect_primitive') and nths(x) == [0]) for a, t in o.st.pc)
         ctx.add('T1.result-code', 'child 0', loc(B.root), ok, 'resultCode is not parse_uint of child 0 as universal ENUMERATED primitive: %s%s' % (absx.fmt(rc)[:120],
                 ' - on this path the code handed to the caller is not decoded from the response at all (the default of the integer type is 0 = success): a response whose resultCode element is missing, of another class or tag, or constructed must fail to decode, not pass success()' if not nths(rc) else ''))
         for name, ordn in (('matched', 1), ('text', 2)):
@@ -226,6 +230,37 @@ def run(ctx):
         ctx.add('T1.ctrls-empty', 'ctrls', loc(B.root), rf.get('ctrls') == ('vec', ()),
                 'LdapResultExt::from must leave ctrls empty (the envelope controls are added by op_call)')
     ctx.floor('T1', 'success paths of the LDAPResult decoder', n_struct, 1)
+    # T1.result-code-exact: how the content octets of the resultCode become the `rc` field is decided by literal evaluation of the
+    # decoder itself (whatever reads them): with the content of child 0 fixed to a literal octet string, rc is the number the octets
+    # denote whenever the field's type can hold it; a code the field cannot hold must not come out as one of the codes the helpers
+    # success() / non_error() / equal() accept (0, 10, 5, 6) - a refusal must never read as success
+    import props.C19 as c19
+    wrong, n_ev = [], 0
+    vecs = c19.int_vectors() + [b'\x01\x00\x00\x00\x00', b'\x01\x00\x00\x00\x0a', b'\x01' + b'\x00' * 8, b'\x80' + b'\x00' * 8, b'\x01' + b'\x00' * 7 + b'\x05', b'\xff' * 9, b'\x02' + b'\x00' * 11 + b'\x06']
+    for octets in sorted(set(vecs), key=lambda x: (len(x), x)):
+        v = int.from_bytes(octets, 'big')
+        def content(I, cal, args, node, st, octets=octets):
+            if cal.endswith('::expect_primitive') and len(args) == 1 and nths(args[0]) == [0]:
+                return [absx.Out('val', ('ctor', 'Some', (('lit', octets),)), st)]
+            return None
+        for o in absx.Interp(f, B, summaries=[content], unroll=1, inline=lambda c: c == 'lber::parse::parse_uint', combinators=True).run():
+            if o.kind not in ('val', 'ret') or o.val[0] != 'ctor' or len(o.val[2]) != 3 or o.val[2][0][0] != 'struct':
+                continue
+            if any(t and a[0] == 'is' and a[2] == 'Tag::Null' for a, t in o.st.pc):
+                continue            # the driver's own acknowledgement, not a decoded response
+            n_ev += 1
+            got = struct_fields(o.val[2][0]).get('rc', ('unk',))
+            fits = v <= 2**32 - 1
+            refusal = got[0] == 'lit' and got[1] not in (0, 5, 6, 10)
+            # more than eight content octets is not a minimal encoding of anything the field can hold: exact, or a refusal
+            padded_ok = len(octets) > 8 and (got == ('lit', v) or (refusal and v not in (0, 5, 6, 10)))
+            if not padded_ok and ((fits and got != ('lit', v)) or (not fits and not refusal)):
+                w = (octets.hex() or '(empty)', absx.fmt(got)[:24], v if fits else 'does not fit u32')
+                if w not in wrong:
+                    wrong.append(w)
+    ctx.add('T1.result-code-exact', 'child 0', loc(B.root), n_ev > 0 and not wrong,
+            'the result code is not read exactly: with the content octets of the resultCode fixed to literal strings, %d differ from the number they denote, or a code too large for the field '
+            'comes out as one the success helpers accept; (octets, rc, denotes): %s' % (len(wrong), wrong[:5]))
     # dispatch table, decided by evaluating the decoder once per component tag number (finite partition: the numbers it compares
     # with and representatives of the rest): the component loop is run on one generic trailing component whose tag is that
     # number, and what is read off is which field of the returned value receives (something computed from) that component
